@@ -21,7 +21,7 @@ import (
 )
 
 func verifC13RecSizes(smi *SegmentMicroIndex) map[string]uint32 { return nil }
-func verifC13RecCount(smi *SegmentMicroIndex) uint32          { return 1 }
+func verifC13RecCount(smi *SegmentMicroIndex) uint32            { return 1 }
 
 func VerifC13RotatedSegmentSelection() {
 	names := []string{"a", "ab", "b"}
